@@ -890,6 +890,8 @@ class SymEval:
                 return base.index if base.index is not None else Opaque('index')
             if a == 'name':
                 return base.name if base.name is not None else Opaque('name')
+            if a == 'T':
+                return base          # one row / one column of labels: the same record
             if a in ('copy', 'to_frame', 'transpose', 'loc', 'iloc'):
                 return Bound(base, a)
             if a == 'shape':
@@ -1081,6 +1083,10 @@ class SymEval:
         for e in node.elts:
             if isinstance(e, ast.Starred):
                 v = self.eval(e.value, env)
+                if isinstance(v, Opaque) and v.tag == 'ix':
+                    # *np.ix_(rows, cols): the open-mesh parts, to be used side by side
+                    out.extend(Opaque('ixpart', k_, p_) for k_, p_ in enumerate(v.parts))
+                    continue
                 if not isinstance(v, (list, tuple)):
                     raise Unsupported('star-unpacking of %r in a display' % (v,))
                 out.extend(v)
@@ -1139,7 +1145,13 @@ class SymEval:
 
     def eval_index(self, node, env):
         if isinstance(node, ast.Tuple):
-            return tuple(self.eval_index(e, env) for e in node.elts)
+            out_ = []
+            for e in node.elts:
+                if isinstance(e, ast.Starred):
+                    out_.extend(self._elts(ast.Tuple(elts=[e], ctx=ast.Load()), env))
+                else:
+                    out_.append(self.eval_index(e, env))
+            return tuple(out_)
         if isinstance(node, ast.Slice):
             def b(x):
                 if x is None:
@@ -1181,6 +1193,13 @@ class SymEval:
             idx = tuple(idx[0].parts)
             outer = True
         idx = list(idx)
+        if any(isinstance(x, Opaque) and x.tag == 'ixpart' for x in idx):
+            # (..., *np.ix_(rows, cols)): outer product of the index lists on those axes
+            if any(isinstance(x, (list, tuple)) for x in idx):
+                raise Unsupported('np.ix_ parts mixed with other index lists')
+            idx = [list(x.parts[1]) if isinstance(x, Opaque) and x.tag == 'ixpart' else x
+                   for x in idx]
+            outer = True
         if any(x is Ellipsis for x in idx):
             k = [i for i, x in enumerate(idx) if x is Ellipsis]
             if len(k) > 1:
